@@ -131,7 +131,7 @@ func init() {
 
 	checks["C16"] = eng.Check{
 		Hist:        true,
-		Rule:        "Overlay(base, Sparse): base = each of the 64 Bytes layouts over addresses 0..5 and 4 pre-filled (fragmented, symbolic) Sparse memories; every history of <=2 (quick) / <=3 (thorough) stores (addr 0..5, width 1..3 (+4 quick depth<=2), constant/symbolic/narrower values and constants equal to the base layer's content at that place) through the real Overlay; after each history every Load/Missing for a in 0..7, w in 1..4 and Blocks() compared with the layered byte map (upper layer wins, else base), and the base's own full surface compared with its initial model. On the sparse bases and on every 9th (thorough: every) Bytes layout the histories of <=2 stores use the wide alphabet and are run in three read/write interleavings (reads after every store, none between the stores, none before the end). Non-trivial = history with >=2 stores.",
+		Rule:        "Overlay(base, Sparse): base = each of the 64 Bytes layouts over addresses 0..5 and 4 pre-filled (fragmented, symbolic) Sparse memories; every history of <=2 (quick) / <=3 (thorough) stores (addr 0..5, width 1..3 (+4 quick depth<=2), constant/symbolic/narrower values and constants equal to the base layer's content at that place) through the real Overlay; after each history every Load/Missing for a in 0..7, w in {1,2,3,4,6,8} and Blocks() compared with the layered byte map (upper layer wins, else base), and the base's own full surface compared with its initial model. On the sparse bases and on every 9th (thorough: every) Bytes layout the histories of <=2 stores use the wide alphabet and are run in three read/write interleavings (reads after every store, none between the stores, none before the end). Non-trivial = history with >=2 stores.",
 		Assumptions: []string{"no address wrap", "values judged under 3 valuations"},
 		Run: func(r *eng.Run) {
 			alpha := memAlpha(seq(0, 5), seq(1, 3), []string{"const", "sym", "basecopy"})
@@ -158,7 +158,7 @@ func init() {
 			r.Note("bases=%d alphabet=%d/%d depth=%d", len(bases), len(alpha), len(alpha2), depth)
 			for bi, b := range bases {
 				b := b
-				memDo(r, memCase{Mem: "overlay", Base: b.kind, Blocks: b.blocks, Pre: b.pre, MaxA: 7, MaxW: 4})
+				memDo(r, memCase{Mem: "overlay", Base: b.kind, Blocks: b.blocks, Pre: b.pre, MaxA: 7, MaxW: 4, ExtraW: []int{6, 8}})
 				a2 := alpha2
 				if r.Quick() && bi%9 != 3 && bi < 64 {
 					a2 = alpha // quick: the wide alphabet on every 9th layout and the sparse bases only
@@ -168,12 +168,12 @@ func init() {
 					do = memDoRW // all read/write interleavings
 				}
 				histories(r, a2, 2, func(ops []memOp) {
-					do(r, memCase{Mem: "overlay", Base: b.kind, Blocks: b.blocks, Pre: b.pre, Ops: append([]memOp{}, ops...), MaxA: 7, MaxW: 4})
+					do(r, memCase{Mem: "overlay", Base: b.kind, Blocks: b.blocks, Pre: b.pre, Ops: append([]memOp{}, ops...), MaxA: 7, MaxW: 4, ExtraW: []int{6, 8}})
 				})
 				if depth >= 3 {
 					histories(r, alpha, 3, func(ops []memOp) {
 						if len(ops) == 3 {
-							memDo(r, memCase{Mem: "overlay", Base: b.kind, Blocks: b.blocks, Pre: b.pre, Ops: append([]memOp{}, ops...), MaxA: 7, MaxW: 4})
+							memDo(r, memCase{Mem: "overlay", Base: b.kind, Blocks: b.blocks, Pre: b.pre, Ops: append([]memOp{}, ops...), MaxA: 7, MaxW: 4, ExtraW: []int{6, 8}})
 						}
 					})
 				}
@@ -182,10 +182,10 @@ func init() {
 			for _, b := range bases[60:] {
 				b := b
 				histories(r, alpha, 2, func(ops []memOp) {
-					memDo(r, memCase{Mem: "overlay", Base: b.kind, Blocks: b.blocks, Pre: b.pre, Ops: append([]memOp{}, ops...), Top: true, MaxA: 7, MaxW: 4})
+					memDo(r, memCase{Mem: "overlay", Base: b.kind, Blocks: b.blocks, Pre: b.pre, Ops: append([]memOp{}, ops...), Top: true, MaxA: 7, MaxW: 4, ExtraW: []int{6, 8}})
 				})
 			}
-			r.Sample(memCase{Mem: "overlay", Base: "bytes", Blocks: layoutRuns(0b110011, 6), Ops: []memOp{{1, 3, "sym"}, {2, 1, "const"}}, MaxA: 7, MaxW: 4})
+			r.Sample(memCase{Mem: "overlay", Base: "bytes", Blocks: layoutRuns(0b110011, 6), Ops: []memOp{{1, 3, "sym"}, {2, 1, "const"}}, MaxA: 7, MaxW: 4, ExtraW: []int{6, 8}})
 		},
 		Replay: memReplay,
 	}
